@@ -135,18 +135,18 @@ Proof.
 Qed.
 
 Lemma parse_aseq_loop_lengths (P : nat -> Prop) tbl : forall tables adv seqs known p,
-  Forall (fun es => P (length es)) seqs -> Forall (fun t => P (length (l_ch t))) tables ->
+  Forall (fun k : tkey => P (length (fst k))) seqs -> Forall (fun t => P (length (l_ch t))) tables ->
   parse_aseq_loop tbl tables adv seqs known = Ok p -> Forall (fun es => P (length es)) (p_seqs p).
 Proof.
   induction tables as [|t r IH]; intros adv seqs known p Hs Ht H; cbn in H.
-  - injection H as <-. exact Hs.
+  - injection H as <-. cbn [p_seqs]. apply Forall_map. exact Hs.
   - unfold bind in H. destruct (parse_table tbl (l_ch t) known) as [[es k1]|] eqn:E; [|discriminate].
-    destruct (setdefault table_eqb es seqs) as [sidx seqs'] eqn:E2.
+    destruct (setdefault tkey_eqb (es, map l_volp (l_ch t)) seqs) as [sidx seqs'] eqn:E2.
     inversion Ht as [|? ? Pt Ht']; subst.
     eapply IH; [| exact Ht' | exact H].
     apply Forall_forall. intros x Hx. destruct (setdefault_In _ _ _ _ _ E2 x Hx) as [Hin| ->].
     + eapply Forall_forall in Hs; eauto.
-    + now rewrite (parse_table_length _ _ _ _ _ E).
+    + cbn [fst]. now rewrite (parse_table_length _ _ _ _ _ E).
 Qed.
 
 Lemma tables_ok_max c o : tables_ok c o = true -> tables_max_ok c o = true.
@@ -208,7 +208,7 @@ Definition ex_cfg (mn mx : Z) : cfg :=
      c_min := mn; c_max := mx; c_mode := None |}.
 Definition ex_leaf (w : nat) (r : Z) : loop := Loop r plain (Some w) [].
 Definition ex_prog : loop :=
-  Loop 1 plain None [Loop 1 {| has_meas := true; is_vol := false |} None [Loop 1 plain None [ex_leaf 0 1]];
+  Loop 1 plain None [Loop 1 {| has_meas := true; vol := None |} None [Loop 1 plain None [ex_leaf 0 1]];
                      Loop 3 plain None [ex_leaf 1 1; ex_leaf 0 1];
                      ex_leaf 1 2; Loop 1 plain None [ex_leaf 1 1; ex_leaf 0 2; ex_leaf 0 1]].
 
